@@ -173,6 +173,31 @@ func junkify(rec *world.Recording, L []storage.Message, foreignReinit bool) []st
 		}
 	}
 	out = out2
+	// a verbatim copy of the first signing proposal, appended (anyone can) after its batch was
+	// completed and before the next one is proposed
+	var out3 []storage.Message
+	var firstProposal *storage.Message
+	for i := range L {
+		if L[i].Event == "event_signing_start" {
+			m := L[i]
+			firstProposal = &m
+			break
+		}
+	}
+	copied := false
+	seenFirst := false
+	for i := range out {
+		if firstProposal != nil && out[i].Event == "event_signing_start" && out[i].DkgRoundID == rec.Round {
+			if string(out[i].Data) == string(firstProposal.Data) {
+				seenFirst = true
+			} else if seenFirst && !copied && len(out[i].Signature) > 0 && out[i].Signature[0] == findSig(L, out[i].Data) {
+				out3 = append(out3, *firstProposal)
+				copied = true
+			}
+		}
+		out3 = append(out3, out[i])
+	}
+	out = out3
 	for i := range out {
 		out[i].Offset = uint64(i)
 		out[i].ID = fmt.Sprintf("00000000-0000-4000-8000-%012d", i)
@@ -388,6 +413,30 @@ func c08(tier string, args []string) int {
 					r.Violation("C08/reset-and-replay-differs", fmt.Sprintf("node %d after a state reset ignoring %d messages and replaying the board differs from a fresh node fed the filtered log", v, len(ignoreIDs)), map[string]interface{}{"view": v, "ignored": len(ignoreIDs)})
 				}
 			}
+			// ---- (g) the round state does not depend on the node's own operation pool: the log fed
+			// to a node whose operator answers at once (every operation a message creates is retired
+			// before the next message, as if answered - the answers are in the log anyway) gives the
+			// same round states as the log fed to a node whose operator never answers
+			{
+				fresh := freshSnapshot(lab)
+				lab.Node.Mem.Restore(fresh)
+				lab.Board.SetLog(L)
+				for k := 1; k <= len(L); k++ {
+					if err := lab.Node.Tick(k); err != nil {
+						r.Infra("poll loop: %v", err)
+					}
+					ops, _ := lab.Node.Ops.GetOperations()
+					for _, id := range world.SortedKeys(ops) {
+						_ = lab.Node.Ops.DeleteOperation(ops[id])
+					}
+					transitions++
+					got := lab.Node.Mem.Snapshot()
+					if projection(got, rec.Round, true) != projection(S[k], rec.Round, true) {
+						r.Violation("C08/round-state-depends-on-operation-pool", fmt.Sprintf("log %s: after %d messages (last: %s) node %d holds another round state when its operator has answered every operation (%s) than when none was answered (%s)", name, k, L[k-1].Event, v, got.RoundState(rec.Round), S[k].RoundState(rec.Round)), map[string]interface{}{"log": name, "view": v, "position": k, "event": L[k-1].Event})
+						break
+					}
+				}
+			}
 			lab.Node.Stop()
 			r.Sample(map[string]interface{}{"log": name, "view": v, "messages": len(L), "positions": len(S)})
 		}
@@ -563,4 +612,14 @@ type countedStorage struct {
 func (c *countedStorage) GetMessages(offset uint64) ([]storage.Message, error) {
 	defer atomic.AddInt64(&c.done, 1)
 	return c.Storage.GetMessages(offset)
+}
+
+// findSig returns the first signature byte of the genuine message of L with this data (0 if none).
+func findSig(L []storage.Message, data []byte) byte {
+	for _, m := range L {
+		if string(m.Data) == string(data) && len(m.Signature) > 0 {
+			return m.Signature[0]
+		}
+	}
+	return 0
 }
